@@ -4,7 +4,8 @@
     Model: a table cell holds the scalar 0 ([None]) or a Constraint *object*; an object is identified by its
     position in list_of_class_constraints ([Some (p, c)]).  [duals_table dual t] is
     get_class_constraints_duals() for one table, [dual p] being the multiplier of the p-th class constraint.
-    Known finding F-C17b: [C17_linear_cross_untabulated_refuted] / [C17_named_tabulated_partial]. *)
+    [C17_named_tabulated]: no class constraint is left unnamed or outside the tables (F-C17b was repaired in
+    /repo 763e32e). *)
 From Coq Require Import List QArith Bool Arith String.
 From PV Require Import Model.Dict Model.Terms Model.ClassGen Proofs.ClassGenLemmas Proofs.C17Lemmas.
 From PV Require Import Gen.Classes.
@@ -139,21 +140,24 @@ Theorem C17_block_name_prefix :
                  = ("IC_" ++ f_id st ++ "_" ++ (cprefix ++ nat_to_string k) ++ "(" ++ rest)%string.
 Proof. exact block_name_prefix. Qed.
 
-(** Known finding F-C17b: LinearOperator's X^T V = Y^T U equalities are appended without a name and without a
-    table ... *)
-Theorem C17_linear_cross_untabulated_refuted :
-  exists st c, In c (g_cons (run_plan plan_LinearOperator st)) /\ c_name c = None /\
-               g_tables (run_plan plan_LinearOperator st) = [].
-Proof. exact linear_cross_untabulated_refuted. Qed.
-
-(** ... every constraint contributed by any other kind of statement carries a name and sits in a table
-    written by that statement. *)
-Theorem C17_named_tabulated_partial :
-  forall st off it c,
-    cross_free it = true -> item_src st it c ->
+(** Every class constraint generated by any plan (so by every shipped class, LinearOperator's adjoint equalities
+    included since /repo 763e32e) carries a name and is the object held by some cell of some table of
+    tables_of_constraints, at its own position of list_of_class_constraints. *)
+Theorem C17_named_tabulated :
+  forall plan st c,
+    In c (g_cons (run_plan plan st)) ->
     (exists nm, c_name c = Some nm) /\
-    exists t i j p, In t (item_tables st off it) /\ table_cell t i j = Some (Some (p, c)).
-Proof. exact item_src_tabulated. Qed.
+    exists t i j p, In t (g_tables (run_plan plan st)) /\ table_cell t i j = Some (Some (p, c)) /\
+                    nth_error (g_cons (run_plan plan st)) p = Some c.
+Proof. exact run_plan_named_tabulated. Qed.
+
+(** regression for the repaired F-C17b: one sample of a LinearOperator and one of its transpose *)
+Example C17_linear_adjoint_regression :
+  map c_name (g_cons (run_plan plan_LinearOperator lin_witness)) = [Some "IC_Function_0_adjoint(Point_0, Point_0)"%string] /\
+  map t_name (g_tables (run_plan plan_LinearOperator lin_witness)) = ["adjoint"%string] /\
+  map (duals_table (fun p => inject_Z (Z.of_nat p + 7))) (g_tables (run_plan plan_LinearOperator lin_witness))
+  = [[[7%Q]]].
+Proof. exact linear_adjoint_regression. Qed.
 
 (** * non-vacuity: a convex function with three unnamed samples; the 3 x 3 table has 0 on the diagonal and the
     six constraints, in row-major order, elsewhere; the dual table reads the tags back *)
@@ -198,5 +202,4 @@ Print Assumptions C17_nat_to_string_inj.
 Print Assumptions C17_pair_name_prefix.
 Print Assumptions C17_single_name_prefix.
 Print Assumptions C17_block_name_prefix.
-Print Assumptions C17_linear_cross_untabulated_refuted.
-Print Assumptions C17_named_tabulated_partial.
+Print Assumptions C17_named_tabulated.
